@@ -2048,10 +2048,16 @@ func (h *paramHarness) randomValueFor(comp string, key string, probes []interfac
 	case "boolean":
 		return r.Bool()
 	case "readable":
+		if forUse && r.Chance(0.2) {
+			// spellings that are NOT the path of the file but that a lenient validator might take for it (blanks around it, an
+			// environment variable in it): whatever the validator says of them, what it lets through must load later
+			base := filepath.Base(catchmentCsv)
+			return []string{catchmentCsv + " ", " " + catchmentCsv, "$VERIF_PARAMS_DIR/" + base, "${VERIF_PARAMS_DIR}/" + base, "./" + catchmentCsv}[r.Intn(5)]
+		}
 		if forUse || r.Chance(0.7) {
 			return catchmentCsv
 		}
-		return []string{"", ".", "no/such/file.csv", "go.mod"}[r.Intn(4)]
+		return []string{"", ".", "no/such/file.csv", "go.mod", catchmentCsv + " ", "$VERIF_PARAMS_DIR/" + filepath.Base(catchmentCsv)}[r.Intn(6)]
 	}
 	return probes[r.Intn(len(probes))]
 }
@@ -2061,6 +2067,7 @@ func suiteParams(c *Ctx) {
 	if repo == "" {
 		repo = "/repo"
 	}
+	os.Setenv("VERIF_PARAMS_DIR", filepath.Dir(catchmentCsv))
 	if wd, err := os.Getwd(); err != nil || !isReadable(filepath.Join(wd, catchmentCsv)) {
 		must(os.Chdir(repo)) // DataSourcePath is resolved against the working directory
 	}
